@@ -123,6 +123,8 @@ func TestVerif_C13_Tecdsa(t *testing.T) {
 			if err := st.Initiate(ctx); err != nil {
 				t.Fatalf("Initiate: %v", err)
 			}
+			ring.NewCase()
+			ring.SetGenuine(1, mine, member.selfDKGResultSignature)
 			msgs := c.Get("msgs").List()
 			accepted := c.Get("accepted").List()
 			concrete := make([]vsup.Concrete, len(msgs))
